@@ -11,6 +11,8 @@ Families
                 time to maturity or volatility (scalar-like and mixed tensors): ValueError, never a value.
   negative_scalars the same entry points with the negative time / volatility given as a python float, int or 0-dim
                 tensor, under both states of torch.distributions' argument validation: ValueError.
+  negative_args_child  the negative-argument alphabet (tensor and python-float styles) in a child interpreter started
+                with -O (__debug__ False): ValueError there as well.
   hedger_finite scripted markets (ALL paths over alphabets that end below / at / above the strike; Heston
                 underliers: all joint (spot, variance) paths incl. variance 0; zero-sigma Brownian stock:
                 the constant paths) through Hedger(BlackScholes(d)) and Hedger(WhalleyWilmott(d)):
@@ -444,6 +446,89 @@ def negative_scalars(ctx, block):
         Distribution.set_default_validate_args(prev)
 
 
+CHILD_SCRIPT = r"""
+import json, sys, os
+repo, verif, dtype_name, strike = sys.argv[1], sys.argv[2], sys.argv[3], float(sys.argv[4])
+sys.path.insert(0, repo); sys.path.insert(1, verif)
+import warnings; warnings.filterwarnings("ignore")
+import torch
+torch.set_num_threads(1)
+import pfhedge
+assert os.path.realpath(pfhedge.__file__).startswith(os.path.realpath(repo) + os.sep), pfhedge.__file__
+from mc.checks import c18
+cases = json.loads(sys.stdin.read())
+dtype = c18.DT[dtype_name]
+P = c18._negative_entry_points()
+out = {"debug": __debug__, "optimize": sys.flags.optimize, "results": []}
+for name in P:
+    for ci, case in enumerate(cases):
+        if "style" in case:
+            s = torch.tensor([-0.5, 0.0, 0.5], dtype=dtype); m = torch.tensor([0.1, 0.1, 0.6], dtype=dtype)
+            pos = [c18._scalar([case["t"][0], 0.25 if case["t"][0] != "int" else 1], dtype),
+                   c18._scalar([case["v"][0], 0.2 if case["v"][0] != "int" else 1], dtype)]
+            try:
+                P[name](s, m, pos[0], pos[1], strike)
+            except Exception:
+                out["results"].append([name, ci, "style_not_accepted", None]); continue
+            t, v = c18._scalar(case["t"], dtype), c18._scalar(case["v"], dtype)
+        else:
+            s, m, t, v = (torch.tensor(case[k], dtype=dtype) for k in ("s", "m", "t", "v"))
+        try:
+            o = torch.as_tensor(P[name](s, m, t, v, strike))
+            res = ["silent_nan" if bool(o.isnan().any()) else "accepted", [repr(x) for x in o.flatten()[:4].tolist()]]
+        except ValueError:
+            res = ["ValueError", None]
+        except Exception as e:
+            res = ["raises_" + type(e).__name__, str(e)[:120]]
+        out["results"].append([name, ci] + res)
+print("RESULT" + json.dumps(out))
+"""
+
+
+@family
+def negative_args_child(ctx, block):
+    """The negative-argument alphabet in a CHILD interpreter started with the given flags (-O: __debug__ is False,
+    assert statements and torch.distributions' default argument validation are off): ValueError there as well."""
+    import json
+    import os
+    import subprocess
+    import sys
+    from mc.core import runner
+    flags = block["flags"]
+    env = dict(os.environ, PYTHONHASHSEED="0", OMP_NUM_THREADS="1", MKL_NUM_THREADS="1", PYTHONWARNINGS="ignore")
+    env.pop("PYTHONOPTIMIZE", None)
+    cmd = [sys.executable] + flags + ["-c", CHILD_SCRIPT, runner.REPO, runner.VERIF, block["dtype"], str(block["strike"])]
+    r = subprocess.run(cmd, input=json.dumps(block["cases"]), capture_output=True, text=True, timeout=600, env=env, cwd=runner.VERIF)
+    line = [ln for ln in r.stdout.splitlines() if ln.startswith("RESULT")]
+    if r.returncode != 0 or not line:
+        raise runner.HarnessError(f"child interpreter {flags} failed (exit {r.returncode}): {r.stderr[-600:]}")
+    out = json.loads(line[-1][len("RESULT"):])
+    want_opt = 2 if "-OO" in flags else (1 if "-O" in flags else 0)
+    if out["optimize"] != want_opt or out["debug"] != (want_opt == 0):
+        raise runner.HarnessError(f"child interpreter flags {flags}: optimize={out['optimize']} __debug__={out['debug']}")
+    wanted = set(block.get("evals") or [])
+    mode = "optimized" if want_opt else "plain"
+    for name, ci, res, detail in out["results"]:
+        if wanted and name not in wanted:
+            continue
+        if res == "style_not_accepted":
+            ctx.add("scalar_style_not_accepted", 1)
+            continue
+        ctx.tick(1, nontrivial=1)
+        ctx.outcome((name, mode, res))
+        if res == "ValueError":
+            continue
+        case = block["cases"][ci]
+        neg_t = (case["t"][1] < 0) if "style" in case else any(x < 0 for x in case["t"])
+        neg_v = (case["v"][1] < 0) if "style" in case else any(x < 0 for x in case["v"])
+        which = "t" if neg_t and not neg_v else ("v" if neg_v and not neg_t else "tv")
+        ctx.violation(name, f"python_{mode}_negative_{which}_{res}" + ("_scalar" if "style" in case else ""),
+                      f"{name}(t={case['t']}, v={case['v']}) in a child interpreter `python {' '.join(flags)}` (__debug__="
+                      f"{out['debug']}): {res} {detail if detail else ''} instead of ValueError",
+                      observed=[res, detail], expected="ValueError",
+                      block=dict(block, evals=[name], cases=[case]))
+
+
 # ----------------------------------------------------------------------------
 # hedger level
 # ----------------------------------------------------------------------------
@@ -693,6 +778,12 @@ def run(ctx):
         for dtype in (["float64"] if ctx.quick else ["float64", "float32"]):
             ctx.run("negative_scalars", {"dtype": dtype, "strike": 1.0, "s": [-0.5, 0.0, 0.5], "validate_args": validate,
                                          "cases": scases})
+
+    # the interpreter's optimisation flag is one more ambient mode: same alphabet in a child `python -O`
+    ccases = [c for c in ncases if len(c["s"]) == 1 and c["s"] == [0.5]] + [c for c in ncases if len(c["s"]) == 3][-3:] + \
+        [dict(c, style=True) for c in scases if c["t"][0] == "float" and c["v"][0] == "float"]
+    for flags in (["-O"], ["-OO"]) if ctx.thorough else (["-O"],):
+        ctx.run("negative_args_child", {"flags": flags, "dtype": "float64", "strike": 1.0, "cases": ccases})
 
     # hedger level
     A = [0.75, 1.0, 1.25]
